@@ -1150,8 +1150,23 @@ def _get_shape(tree: ast.Module) -> dict:
     if not listing:
         raise TranslateError(f'{where}: no path with a reader call found')
     clears_all = all(any(k in ('clear-all',) for k in ks) or ({'clear-main', 'clear-extra'} <= set(ks)) for ks in listing if 'cache' in ks)
+    # what a look leaves behind when it raises: the model caches nothing and clears nothing on a raising path ([getf]: `None => (false, snd r)`);
+    # a store into the cache or into a lump's data inside an `except` / `finally` of __get__ happens while an exception propagates
+    on_raise = False
+    for n in ast.walk(fn):
+        blocks = []
+        if isinstance(n, ast.Try):
+            blocks = [h.body for h in n.handlers] + [n.finalbody]
+        for blk in blocks:
+            for st in blk:
+                for x in ast.walk(st):
+                    if isinstance(x, ast.Subscript) and isinstance(x.ctx, (ast.Store, ast.Del)) and isinstance(x.value, ast.Attribute) \
+                            and x.value.attr == '_parsed_lumps':
+                        on_raise = True
+                    if isinstance(x, ast.Attribute) and x.attr == 'data' and isinstance(x.ctx, (ast.Store, ast.Del)):
+                        on_raise = True
     return {'early_main': early_main, 'early_extra': early_extra, 'parse_uncached': uncached, 'paths': listing,
-            'clears_to_clear_after_caching': clears_all}
+            'clears_to_clear_after_caching': clears_all, 'stores_on_raising_path': on_raise}
 
 
 def _save_shape(m: '_Module') -> dict:
@@ -1211,8 +1226,30 @@ def _save_shape(m: '_Module') -> dict:
             stores.append(n.value.value.attr)
     if len(calls) != 1 or not pops:
         raise TranslateError(f'{where}:{loop.lineno}: rebuild loop without exactly one writer call and a pop of the cache')
+    pops_late = False
     if min(pops) > calls[0]:
-        raise TranslateError(f'{where}:{loop.lineno}: the view is popped after its writer ran (not the modelled order)')
+        # `data = self._parsed_lumps[var]` ... writer ... stores ... `del self._parsed_lumps[var]`: the value never leaves the cache
+        # while its writer runs and is forgotten only once the lumps are rebuilt.  Same as pop-before + put-back-on-raise
+        # PROVIDED no writer looks at its own view (it would find the cached value instead of re-parsing the cleared lump):
+        # flag `pops_late`, obliged separately.  Recognised only in this plain form: the cache is read for the loop variable
+        # before the call, every pop / del follows the last store and none of them sits in a handler or finally block.
+        reads = [n.lineno for n in ast.walk(loop)
+                 if (isinstance(n, ast.Subscript) and isinstance(n.ctx, ast.Load) and isinstance(n.value, ast.Attribute) and n.value.attr == '_parsed_lumps'
+                     and isinstance(n.slice, ast.Name) and n.slice.id == var)
+                 or (isinstance(n, ast.Call) and isinstance(n.func, ast.Attribute) and n.func.attr == 'get' and isinstance(n.func.value, ast.Attribute)
+                     and n.func.value.attr == '_parsed_lumps' and n.args and isinstance(n.args[0], ast.Name) and n.args[0].id == var)]
+        store_lines = [n.lineno for n in ast.walk(loop) if isinstance(n, ast.Attribute) and n.attr == 'data' and isinstance(n.ctx, ast.Store)]
+        in_handlers = {id(x) for t in ast.walk(loop) if isinstance(t, ast.Try) for blk in [h.body for h in t.handlers] + [t.finalbody]
+                       for st in blk for x in ast.walk(st)}
+        pop_nodes = [n for n in ast.walk(loop) if (isinstance(n, ast.Delete) and any(mentions(t, '_parsed_lumps') for t in n.targets))
+                     or (isinstance(n, ast.Call) and isinstance(n.func, ast.Attribute) and n.func.attr == 'pop' and mentions(n.func.value, '_parsed_lumps'))]
+        for n in pop_nodes:
+            if isinstance(n, ast.Delete) and not all(isinstance(t, ast.Subscript) and isinstance(t.slice, ast.Name) and t.slice.id == var for t in n.targets):
+                raise TranslateError(f'{where}:{n.lineno}: del of something other than the loop variable\'s cache entry')
+        if not reads or min(reads) > calls[0] or not store_lines or min(pops) < max(store_lines) or any(id(n) in in_handlers for n in pop_nodes) \
+                or any(isinstance(t, ast.Try) and any(id(x) in {id(y) for y in ast.walk(t)} for x in pop_nodes) for t in ast.walk(loop)):
+            raise TranslateError(f'{where}:{loop.lineno}: the view is popped after its writer ran (not the modelled order)')
+        pops_late = True
     if set(stores) != {'lumps', 'game_lumps'}:
         raise TranslateError(f'{where}:{loop.lineno}: writer result is not stored into both self.lumps[..] and self.game_lumps[..]: {stores}')
     # nothing else in save touches the cache
@@ -1220,7 +1257,59 @@ def _save_shape(m: '_Module') -> dict:
         if isinstance(n, ast.Attribute) and n.attr == '_parsed_lumps' and not any(n is x for x in ast.walk(loop)) \
                 and not snapshot:
             raise TranslateError(f'{where}:{n.lineno}: _parsed_lumps used outside the rebuild loop')
-    return {'snapshot': snapshot, 'loop_line': loop.lineno, 'iter': ast.unparse(loop.iter)}
+    # What is left behind when the writer raises (a look inside it fails on a malformed lump): the value was popped and the
+    # lumps of the view were cleared when it was looked at, so the popped value is the only copy.  `restores`: the writer call
+    # sits in a `try` whose handlers (bare / Exception / BaseException) each do nothing but put the popped value back under the
+    # loop variable and re-raise.  Any other store into the cache inside save fails closed.
+    popped_names = set()
+    for n in ast.walk(loop):
+        if isinstance(n, ast.Assign) and len(n.targets) == 1 and isinstance(n.targets[0], ast.Name) and isinstance(n.value, ast.Call) \
+                and isinstance(n.value.func, ast.Attribute) and n.value.func.attr == 'pop' and mentions(n.value.func.value, '_parsed_lumps'):
+            popped_names.add(n.targets[0].id)
+
+    def is_restore(st: ast.stmt) -> bool:
+        return isinstance(st, ast.Assign) and len(st.targets) == 1 and isinstance(st.targets[0], ast.Subscript) \
+            and isinstance(st.targets[0].value, ast.Attribute) and st.targets[0].value.attr == '_parsed_lumps' \
+            and _is_self_attr(st.targets[0].value) and isinstance(st.targets[0].slice, ast.Name) and st.targets[0].slice.id == var \
+            and isinstance(st.value, ast.Name) and st.value.id in popped_names
+    restores = False
+    accounted: set[int] = set()
+    for n in ast.walk(loop):
+        if isinstance(n, ast.Try) and any(isinstance(x, ast.Call) and isinstance(x.func, ast.Subscript) and mentions(x.func.value, '_save_funcs')
+                                          for b in n.body for x in ast.walk(b)):
+            if n.finalbody or n.orelse or not n.handlers:
+                raise TranslateError(f'{where}:{n.lineno}: try around the writer call with else / finally (not modelled)')
+            for h in n.handlers:
+                tname = None if h.type is None else (h.type.id if isinstance(h.type, ast.Name) else '?')
+                if tname not in (None, 'Exception', 'BaseException'):
+                    raise TranslateError(f'{where}:{h.lineno}: handler around the writer call catches {ast.unparse(h.type)} (not modelled)')
+                if len(h.body) == 2 and is_restore(h.body[0]) and isinstance(h.body[1], ast.Raise) and h.body[1].exc is None:
+                    accounted.add(id(h.body[0]))
+                elif len(h.body) == 1 and isinstance(h.body[0], ast.Raise) and h.body[0].exc is None:
+                    pass        # re-raises only: the plain loop
+                else:
+                    raise TranslateError(f'{where}:{h.lineno}: handler around the writer call does something other than putting the '
+                                         f'popped value back and re-raising')
+            if pops_late:
+                raise TranslateError(f'{where}:{n.lineno}: try around the writer call together with a late pop (not modelled)')
+            restores = all(len(h.body) == 2 for h in n.handlers) and min(pops) < n.lineno
+            # writers may be generators: their body (and the looks in it) runs while the result is consumed.  Every use of
+            # the name bound from the writer call must be inside the same try, otherwise the raise is not covered by it.
+            inside = {id(x) for b in n.body for x in ast.walk(b)}
+            res_names = {st.targets[0].id for b in n.body for st in ast.walk(b)
+                         if isinstance(st, ast.Assign) and len(st.targets) == 1 and isinstance(st.targets[0], ast.Name)
+                         and isinstance(st.value, ast.Call) and isinstance(st.value.func, ast.Subscript) and mentions(st.value.func.value, '_save_funcs')}
+            if not res_names:
+                raise TranslateError(f'{where}:{n.lineno}: the writer result is not bound to a local name inside the try')
+            for x in ast.walk(loop):
+                if isinstance(x, ast.Name) and x.id in res_names and isinstance(x.ctx, ast.Load) and id(x) not in inside:
+                    restores = False        # consumed outside the try: a generator writer raises there
+    for n in ast.walk(fn):
+        if isinstance(n, (ast.Assign, ast.AugAssign, ast.AnnAssign)):
+            for t in (n.targets if isinstance(n, ast.Assign) else [n.target]):
+                if isinstance(t, ast.Subscript) and mentions(t.value, '_parsed_lumps') and id(n) not in accounted:
+                    raise TranslateError(f'{where}:{n.lineno}: save stores into the cache of parsed views')
+    return {'snapshot': snapshot, 'restores': restores or pops_late, 'pops_late': pops_late, 'loop_line': loop.lineno, 'iter': ast.unparse(loop.iter)}
 
 
 def _container_layout(m: '_Module') -> dict:
@@ -1423,7 +1512,13 @@ def translate() -> tuple[str, dict]:
         '(* statement order of ParsedLump.__get__ (paths: ' + '; '.join(' '.join(ks) for ks in gshape['paths']) + ')',
         f'   and loop shape of BSP.save (line {sshape["loop_line"]}: for ... in {sshape["iter"]}) *)',
         f'Definition bsp_shape : shape := mkShape {cb(gshape["early_main"])} {cb(gshape["early_extra"])} {cb(sshape["snapshot"])}.',
+        '(* when the writer of a view raises inside BSP.save, the value popped for it is put back into the cache before the exception propagates *)',
+        f'Definition bsp_save_restores_on_abort : bool := {cb(sshape["restores"])}.',
+        '(* the rebuild loop reads the cached value, runs the writer, stores, and only then deletes the cache entry *)',
+        f'Definition bsp_save_pops_late : bool := {cb(sshape["pops_late"])}.',
         f'Definition bsp_get_parse_uncached : bool := {cb(gshape["parse_uncached"])}.',
+        '(* __get__ stores into the cache or into lump data inside an except / finally block (while an exception propagates) *)',
+        f'Definition bsp_get_stores_on_raising_path : bool := {cb(gshape["stores_on_raising_path"])}.',
         f'Definition bsp_get_clears_to_clear_after_caching : bool := {cb(gshape["clears_to_clear_after_caching"])}.',
         '(* constants of the file container *)',
         f'Definition bsp_layout : layout := mkLay {lay["nlumps"]} {lay["gidx"]} {lay["pak"]} {nl(lay["worder"])} {lay["l4d2"]}%N {lay["vitamin"]}%N.',
